@@ -192,7 +192,7 @@ fn diag_code(msg: &str) -> u32 {
         ("invalid float literal", 9),
         ("Integer literals may not have negative exponent", 10),
         ("Base must be at least 2 and at most 16", 11),
-        ("Based integer did not end with #", 12),
+        ("Based integer did not end with", 12),
         ("Invalid bit string literal", 13),
         ("Illegal token", 14),
         ("Expecting identifier", 15),
@@ -439,8 +439,8 @@ fn run_case(symbols: &Symbols, kws: &[Kind], case: &Case, tmp: &Path) -> String 
 // ---------------------------------------------------------------------------------------------
 // generators
 // ---------------------------------------------------------------------------------------------
-const EXH_ALPHA: [char; 22] = [
-    'x', 'b', 'e', '1', '_', '"', '\'', '\\', '#', '.', '-', '/', '*', ' ', '\n', '\r', '€', '😀', 'é', '?', '=', '`',
+const EXH_ALPHA: [char; 23] = [
+    'x', 'b', 'e', '1', '_', '"', '\'', '\\', '#', '.', '-', '/', '*', ' ', '\n', '\r', '€', '😀', 'é', '?', '=', '`', ':',
 ];
 
 fn pick_str<'a>(rng: &mut Rng, xs: &'a [&'a str]) -> &'a str {
@@ -453,11 +453,12 @@ const DELIMS: [&str; 39] = [
 ];
 const LATIN: [char; 14] = ['a', 'Z', '0', ' ', '_', 'é', 'ÿ', 'À', '×', '÷', 'ß', 'Þ', '\u{a0}', '~'];
 const ANYC: [char; 12] = ['a', 'b', ' ', '€', '😀', '𝔘', 'é', '\t', '*', '/', '-', '\u{2028}'];
-const NUMS: [&str; 44] = [
+const NUMS: [&str; 64] = [
     "0", "7", "12_000", "1e3", "1E+3", "2e-0", "1e-1", "18446744073709551615", "18446744073709551616", "1e19", "1e20",
     "0e25", "1.5", "1.5e-3", "1_0.2_5E+10", "1.", "1.a", "1.5.3", "1g.5", "16#FF#", "2#1010_1010#", "8#77#E1", "16#F.F#",
     "16#F.F#e-1", "2#1#e64", "2#1#e63", "17#1#", "1#0#", "2#3#", "16#FG#", "16#FF", "2#1#e-1", "1e2147483648",
     "1e-2147483648", "1e-2147483649", "1__2", "1_", "3ux", "1ab.5", "9z", "16#f#E", "1.5e", "10#1.0#e-2", "2#1.1",
+    "16:FF:", "2:1:E3", "16:F.8:", "16:FF", "16:= 3", "16: x", "16:_a", "16:FF#", "16#FF:", "2:1:e-1", "10:1.0:e-2", "16:", "1:a", "16:g:", "17:1:", "2:1:e64", "16:F.F:E+1", "8:7:=", "2:1", "16:é:",
 ];
 const BITS: [&str; 18] = [
     "x\"AB\"", "B\"1_0\"", "12sb\"01\"", "ux\"f\"", "d\"12\"", "4294967297x\"1\"", "o\"7", "1x", "1ux\"0\"", "12s\"0\"",
@@ -530,7 +531,7 @@ fn gen_lexeme(rng: &mut Rng, kwnames: &[String], dirty: bool) -> String {
             if dirty {
                 pick_str(rng, &NUMS).to_string()
             } else {
-                pick_str(rng, &["0", "7", "12_000", "1e3", "1.5", "1.5e-3", "16#FF#", "2#1010_1010#", "8#77#E1", "16#F.F#"])
+                pick_str(rng, &["0", "7", "12_000", "1e3", "1.5", "1.5e-3", "16#FF#", "2#1010_1010#", "8#77#E1", "16#F.F#", "16:FF:", "2:1:E3", "16:F.8:"])
                     .to_string()
             }
         }
